@@ -260,7 +260,7 @@ def run(pm, ctx):
             continue
         paths = [p for p in enumerate_paths(g.node)]
         good = True
-        n_app = 0
+        n_app = n_rec = 0
         for p in paths:
             calls = path_calls(p)
             app = [c for c in calls if isinstance(c.func, ast.Attribute) and
@@ -271,9 +271,12 @@ def run(pm, ctx):
                 # the seen-test must have been evaluated (negative) on the path
                 good &= any('seen' in unparse(e) and isinstance(e, ast.Compare) and not pol
                             for e, pol in p.atoms)
+                n_rec += bool(rec)
                 for r in rec:
-                    good &= r.lineno < app[0].lineno and rec_attr in unparse(r.args[0])
-        ctx.check('C02-R4', good and n_app >= 1,
+                    good &= r._ord < app[0]._ord and rec_attr in unparse(r.args[0])
+        # (the helper recurses on some appending path: hoisting one level from the driver loop
+        # leaves a grandparent behind its grandchild)
+        ctx.check('C02-R4', good and n_app >= 1 and n_rec >= 1,
                   '%s: seen-test, then recursion on .%s, then append (%d appending paths)' % (
                       f.short, rec_attr, n_app), g.loc,
                   msg='%s no longer places the %s before its dependant' % (f.short, rec_attr),
